@@ -48,6 +48,16 @@ Theorem mismatch_rejected :
     consume ty (expected :: st) acc (t :: r) = ErrUnexpected (ty t).
 Proof. exact BalancedThms.mismatch_rejected. Qed.
 
+(* a closing bracket at depth 0 of an unparsed value (initialiser, default
+   argument, enumerator value, ...) that is neither one of the value's
+   terminators nor the tolerant '>' is rejected *)
+Theorem stray_closer_in_value_rejected :
+  forall (T : Type) (ty : T -> N) terms f acc t r,
+    memN (ty t) terms = false -> memN (ty t) end_balanced_tokens = true -> ty t <> GT ->
+    assocN (ty t) balanced_token_map = None ->
+    value_until ty (S f) terms acc (t :: r) = ErrUnexpected (ty t).
+Proof. exact BalancedThms.stray_closer_in_value_rejected_lemma. Qed.
+
 (* a stray closing brace at the root and an access specifier outside a class
    stop the machine with an error, after which nothing is delivered *)
 Theorem stray_close_rejected :
@@ -76,6 +86,7 @@ Print Assumptions lex_error_line_exists.
 Print Assumptions illegal_char_rejected.
 Print Assumptions hash_is_directive_or_error.
 Print Assumptions mismatch_rejected.
+Print Assumptions stray_closer_in_value_rejected.
 Print Assumptions stray_close_rejected.
 Print Assumptions access_outside_class_rejected.
 Print Assumptions error_is_final.
